@@ -378,10 +378,10 @@ Definition layout_kv_reader_ok : bool := layout_is "kv_unserialise"
 Definition layout_io_ok : bool := layout_is "iodef_serialise" ["str"; "u8"] && layout_is "iodef_unserialise" ["str"; "u8"].
 Definition layout_ent_writer_ok : bool := layout_is "ent_serialise"
   ["hdr:_.value,len(_.bases),len(_.keyvalues),len(_.inputs),len(_.outputs),len(_.resources)";
-   "loop(_.bases){"; "if(isinstance(_, str)){"; "str"; "}else{"; "str"; "}"; "}";
+   "loop(_.bases){"; "str"; "}";
    "loop(_._iter_attrs()){"; "loop(_.items()){"; "if(len(_) == 1){"; "if(not _){"; "if(isinstance(_, KVDef)){"; "kv"; "}else{";
    "if(isinstance(_, IODef)){"; "io"; "}else{"; "raise"; "}"; "}"; "}"; "}"; "raise"; "}"; "}";
-   "loop(_.resources){"; "if(_.tags){"; "u8"; "tags"; "}else{"; "u8"; "}"; "str"; "}"].
+   "loop(_.resources){"; "u8"; "if(_.tags){"; "tags"; "}"; "str"; "}"].
 Definition layout_ent_reader_ok : bool := layout_is "ent_unserialise"
   ["hdr6"; "loop(h1){"; "str"; "}"; "loop(h2){"; "kv"; "}"; "loop(h3){"; "io"; "}"; "loop(h4){"; "io"; "}";
    "if(h5){"; "loop(h5){"; "u8"; "if(r1 & 128){"; "tags"; "}"; "str"; "}"; "}"].
